@@ -6,6 +6,7 @@
 //!   fv smoke                                 timing / sanity
 
 mod crash;
+mod kledger;
 mod layoutref;
 mod model;
 mod props;
@@ -17,6 +18,9 @@ mod sut;
 mod util;
 
 use std::process::exit;
+
+#[global_allocator]
+static ALLOCATOR: kledger::Tracking = kledger::Tracking;
 
 fn main() {
     let args: Vec<String> = std::env::args().collect();
@@ -58,6 +62,18 @@ fn main() {
         Some("crash-suite") => props::crash_suite_cmd(&args[2], args[3].parse().unwrap_or(3), args.get(4).and_then(|s| s.parse().ok()).unwrap_or(60.0)),
         Some("c09-worker") => props::c09::worker(&args[2..]),
         Some("sched-prog") => props::sched_prog(&args[2], args[3].parse().unwrap_or(1), args.get(4).and_then(|s| s.parse().ok()).unwrap_or(120.0)),
+        Some("uring") => {
+            let mut report = util::Report::new("debug", "quick", "fault_enumeration");
+            props::c09::check_uring(args.get(2).and_then(|s| s.parse().ok()).unwrap_or(30.0), args.get(3).is_some_and(|x| x == "c20"), &mut report);
+            println!("{}", serde_json::to_string_pretty(&report.coverage).unwrap_or_default());
+            for v in report.violations.iter().take(6) {
+                println!("VIOLATION {}", v.detail.chars().take(900).collect::<String>());
+            }
+            for m in &report.machinery {
+                println!("MACHINERY {m}");
+            }
+            i32::from(!report.violations.is_empty())
+        }
         Some("c20-inner") => props::c20::inner(&args[2..]),
         Some("c19-case") => props::c19::debug_case(args[2].parse().unwrap(), args[3].parse().unwrap(), &args[4]),
         Some("c17-worker") => props::c17::worker(&args[2..]),
